@@ -68,6 +68,17 @@ class LruComp:
         if k == "get":
             def f():
                 return c[op[1]]
+        elif k == "getd":
+            # Mapping.get(key, default): a miss is the default, never an exception (what YamlTargetSource calls);
+            # reported as the model's `get` reports a miss, while an exception that ESCAPES is none of its results
+            def f():
+                try:
+                    r = c.get(op[1], "__MISS__")
+                except Exception as e:  # noqa
+                    raise type("Escaped" + type(e).__name__, (Exception,), {})()
+                if r == "__MISS__":
+                    raise KeyError(op[1])
+                return r
         elif k == "set":
             def f():
                 c[op[1]] = op[2]
@@ -278,7 +289,9 @@ def lean_request(case, o, world=None):
     comp, cfg = case["comp"], case["cfg"]
     base = {"threads": case["threads"], "results": o["results"], "probe": COMPS[comp].PROBE, "probe_results": o["probe"]}
     if comp == "lru":
-        return dict(base, op="conc.lru", size=cfg["size"], mark_on_update=cfg.get("mark_on_update", True))
+        # for the model `getd` is `get`
+        ths = [[["get"] + list(op[1:]) if op[0] == "getd" else op for op in t] for t in case["threads"]]
+        return dict(base, op="conc.lru", threads=ths, size=cfg["size"], mark_on_update=cfg.get("mark_on_update", True))
     if comp == "store":
         return dict(base, op="conc.store", strict=StoreComp.STRICT,
                     initial=[store_call(["set"] + list(i)) for i in cfg.get("initial", [])],
